@@ -205,10 +205,10 @@ def call_sites(prog, callee_pred, keys=None):
 PURE_PREFIXES = [
     # formatting / allocation / core data manipulation
     r"core::fmt::", r"std::fmt::", r"alloc::fmt::", r"std::fmt::", r"alloc::", r"std::alloc",
-    r"core::(option|result|slice|iter|ops|cmp|clone|convert|num|mem|ptr|array|str|char|marker|default|hash|borrow|any|panic|panicking|hint|intrinsics|ub_checks|cell|alloc)::",
-    r"std::(option|result|slice|iter|ops|cmp|clone|convert|num|mem|ptr|array|str|char|marker|default|hash|borrow|any|vec|string|boxed|panic|rt|hint|intrinsics|collections)::",
+    r"core::(bool|option|result|slice|iter|ops|cmp|clone|convert|num|mem|ptr|array|str|char|marker|default|hash|borrow|any|panic|panicking|hint|intrinsics|ub_checks|cell|alloc)::",
+    r"std::(bool|option|result|slice|iter|ops|cmp|clone|convert|num|mem|ptr|array|str|char|marker|default|hash|borrow|any|vec|string|boxed|panic|rt|hint|intrinsics|collections)::",
     r"std::net::(SocketAddr|SocketAddrV4|SocketAddrV6|IpAddr|Ipv4Addr|Ipv6Addr)", r"core::net::",
-    r"std::time::Duration",
+    r"std::time::Duration", r"core::time::Duration",
     r"std::sync::atomic::",
     r"byteorder::", r"smallvec::", r"crc::", r"hmac::", r"sha1::", r"sha2::", r"md5::", r"digest::", r"crypto_common::",
     r"generic_array::", r"block_buffer::", r"subtle::", r"typenum::", r"thiserror::",
